@@ -46,8 +46,9 @@ Proof.
     + destruct (fs_trans (st c i)) as [|ti rt]; [exact Hes|]. cbn [fst].
       assert (H1 : P (set_union es (ft_targets (tr c ti)))) by (apply P_un; [exact Hes | apply Q_tgt]).
       destruct (negb (intersects (ft_targets (tr c ti)) (desc c i))); [|exact H1].
-      destruct (filter (fun k => i <? k) (ft_targets (tr c ti))) as [|k rk]; [exact H1|].
-      apply P_un; [exact H1 | apply Q_anc].
+      revert H1. generalize (set_union es (ft_targets (tr c ti))).
+      induction (filter (fun k => i <? k) (ft_targets (tr c ti))) as [|k rk IHk]; intros a Ha; cbn [fold_left]; [exact Ha|].
+      apply IHk. apply P_un; [exact Ha | apply Q_anc].
     + cbn [fst]. apply P_un; [exact Hes|]. intros x Hx. apply In_set_inter in Hx. eapply Q_compl. apply Hx.
   - (* initial *)
     assert (Hout : forall l a, P (fst a) ->
